@@ -156,3 +156,8 @@ package phase4
 //@ func setColor
 //@   loop for(e==nil||e.SelfLoops()||e.IsFlat())#1
 //@     invariant 0 <= i
+
+//@ func verifyLayout
+//@   requires[|C01] forall k int :: 0 <= k && k < len(layers) ==> layers[k] != nil
+//@ func xcoordinates.Size
+//@   requires[|C01] !has(xc, nil)
